@@ -6,7 +6,7 @@
 (*  Location classes are "Type.field" for the fields of the shared struct     *)
 (*  types DB, Schema, Async, objIndex, fieldIndex, objectStore, objectMap;    *)
 (*  the maps of the two stores carry the store instance ("@cache",            *)
-(*  "@asyncw").  A class that is not listed admits NO shared access.          *)
+(*  "@asyncw").  A class that is not listed allows NO shared access.          *)
 (* ========================================================================= *)
 From Coq Require Import List Bool String.
 From Sod.Lock Require Import LockModel.
@@ -35,9 +35,19 @@ Definition pending_table : rule :=
   {| rd := [[(LStore IAsync, R)]; [(LHandle, W)]];
      wr := [[(LStore IAsync, W); (LHandle, W)]] |}.
 
+(** The table of loaded schemas and the "flusher started" flag are written
+    lazily by calls that only hold the handle READ lock: DB.schema() takes
+    the innermost lock [DB.sl] in write mode around the lookup, the loading
+    ([loadSchema]) and [startAsyncWritesRoutine].  Calls holding the handle
+    WRITE lock ([Create], [Control], [Close], [deleteSchema]) access the table
+    without [DB.sl]: they exclude every other call anyway. *)
+Definition lazily_loaded : rule :=
+  {| rd := [[(LHandle, R); (LSchemas, R)]; [(LHandle, W)]];
+     wr := [[(LHandle, R); (LSchemas, W)]; [(LHandle, W)]] |}.
+
 Definition sod_policy : policy := [
   (* the handle *)
-  ("DB.schemas", by_handle);
+  ("DB.schemas", lazily_loaded);
   ("DB.ctx", immutable); ("DB.cancel", immutable); ("DB.root", immutable);
   ("DB.cache", immutable); ("DB.asyncw", immutable);
   (* schemas *)
@@ -46,7 +56,7 @@ Definition sod_policy : policy := [
   ("Schema.Extension", by_handle); ("Schema.Compress", by_handle);
   ("Schema.Cache", by_handle); ("Schema.AsyncWrites", by_handle);
   ("Schema.ObjectIndex", by_handle);
-  ("Async.routineStarted", by_handle); ("Async.Enable", by_handle);
+  ("Async.routineStarted", lazily_loaded); ("Async.Enable", by_handle);
   ("Async.Threshold", by_handle); ("Async.Timeout", by_handle);
   (* the live index *)
   ("objIndex.i", by_handle); ("objIndex.uuids", by_handle);
